@@ -216,10 +216,11 @@ class ProgGen:
             inner.add("I", c)
             body = [f"{c} += 1"]
             for _ in range(r.randint(1, 3)):
-                if r.chance(0.25):
+                if r.chance(0.35):
                     kw = r.choice(["break", "continue"])
                     pre = self.print_stmt(inner) + " " if r.chance(0.5) else ""
-                    body.append(f"if {self.bool_expr(inner, 1)} {{ {pre}{kw} }}")
+                    cond = r.choice([f"{c} == {r.randint(1, max(1, n))}", self.bool_expr(inner, 1)])
+                    body.append(f"if {cond} {{ {pre}{kw} }}")
                 else:
                     body.append(self.stmt(inner))
             self.loop_depth -= 1
@@ -231,9 +232,10 @@ class ProgGen:
             inner.add("I", x)
             body = []
             for _ in range(r.randint(1, 3)):
-                if r.chance(0.25):
+                if r.chance(0.35):
                     kw = r.choice(["break", "continue"])
-                    body.append(f"if {self.bool_expr(inner, 1)} {{ {kw} }}")
+                    cond = r.choice([f"{x} > {r.randint(0, 9)}", self.bool_expr(inner, 1)])
+                    body.append(f"if {cond} {{ {kw} }}")
                 else:
                     body.append(self.stmt(inner))
             self.loop_depth -= 1
